@@ -480,6 +480,10 @@ def run():
     kch4, kerr4 = methods.run()
     kerr += kerr4
     changed += kch4
+    import hashtr
+    kch5, kerr5 = hashtr.run()
+    kerr += kerr5
+    changed += kch5
     kerr += [f"hashes.py section {k}: {v}" for k, v in section_errors.items()]
     return {"changed": changed, "fingerprints": fingerprints(), "kernel_errors": kerr, "section_errors": section_errors}
 
